@@ -35,6 +35,7 @@ type specEnv struct {
 	nq    *int
 	what  string
 	atCall *ssa.Function // the clause is a callee's contract assumed at a call site (its go statements did not run here)
+	guard *Term // ghost assignment executed only when this holds (select arm)
 	lenient bool // undefined locals evaluate to arbitrary values (ensures at early returns)
 }
 
